@@ -36,9 +36,16 @@ func runC06(c *Ctx) {
 	// 1. error discipline
 	checkErrChecked(r, p, "err/checked", errScope{Pkg: pkg, Funcs: append(append([]*ast.FuncDecl{}, tv...), ts...)})
 	for _, fd := range append(append([]*ast.FuncDecl{}, tv...), ts...) {
-		checkFailureReturnsNonNil(r, p, pkg, fd, map[string]string{
+		tolerated := map[string]string{
 			"ErrTypedValueNotChanged": "Compute: the compute function asked to keep the current value; documented non-error",
-		})
+		}
+		if fd.Name.Name == "Compute" || !fd.Name.IsExported() {
+			// reading the current value for a read-modify-write: an absent key is the value (zero, false),
+			// not a failure - in Compute itself or in an unexported stage of it; the exported readers
+			// (Get, Has) must still report absence
+			tolerated["ErrKeyNotFound"] = "absence of the key is the input (zero, false) of the compute function"
+		}
+		checkFailureReturnsNonNil(r, p, pkg, fd, tolerated)
 	}
 	// 2. cache only after store success
 	checkTypedValueCache(r, p)
@@ -175,6 +182,36 @@ func checkStoreCallsUnderW(r *Reporter, p *Prog, pkg string, fd *ast.FuncDecl) {
 			bad = append(bad, fmt.Sprintf("%s: %s runs outside the write-locked section (held %s): the read of the current value, the computation and the store no longer form one exclusive section, concurrent updates are lost", p.posStr(c.Pos()), what, held))
 		}
 	})
+	// store calls made by unexported helper methods of the receiver that this operation calls (their
+	// call sites were just checked to lie in the write-locked section)
+	var inHelpers func(body *ast.BlockStmt, depth int) int
+	visited := map[*ast.FuncDecl]bool{fd: true}
+	inHelpers = func(body *ast.BlockStmt, depth int) int {
+		k := 0
+		ast.Inspect(body, func(nd ast.Node) bool {
+			c, ok := nd.(*ast.CallExpr)
+			if !ok {
+				return true
+			}
+			if fn := staticCallee(info, c); fn != nil && depth > 0 {
+				if hd := p.decls().byFunc[fn.Origin()]; hd != nil && hd.Recv != nil && hd.Body != nil && !hd.Name.IsExported() && !visited[hd] && recvTypeName(hd) == recvTypeName(fd) {
+					visited[hd] = true
+					ast.Inspect(hd.Body, func(m ast.Node) bool {
+						if c2, ok := m.(*ast.CallExpr); ok {
+							if se, ok := ast.Unparen(c2.Fun).(*ast.SelectorExpr); ok && fieldSel(info, se.X, "kv") {
+								k++
+							}
+						}
+						return true
+					})
+					k += inHelpers(hd.Body, depth-1)
+				}
+			}
+			return true
+		})
+		return k
+	}
+	n += inHelpers(fd.Body, 2)
 	if n == 0 {
 		r.Fail("lock/store-under-W", fkey, p.posStr(fd.Pos()), "no store call found (row vacuous)")
 	} else if len(bad) > 0 {
@@ -546,6 +583,17 @@ func checkIterateStopAndReport(r *Reporter, p *Prog, pkg string, fd *ast.FuncDec
 							o = v.Origin()
 						}
 					}
+				} else if st, isStar := ast.Unparen(as.Lhs[0]).(*ast.StarExpr); isStar {
+					// `*errOut = err` in a helper that was handed `&outer`: a store into outer
+					if npt, okp := lf.PointOf(n); okp {
+						if re, _ := lf.Resolve(st.X, npt); re != nil {
+							if u, isAddr := ast.Unparen(re).(*ast.UnaryExpr); isAddr && u.Op == token.AND {
+								if o = objOfIdent(info, u.X); o != nil && o.Pos() >= lit.Body.Pos() && o.Pos() <= lit.Body.End() {
+									o = nil
+								}
+							}
+						}
+					}
 				} else if o = objOfIdent(info, as.Lhs[0]); o != nil && o.Pos() >= lit.Body.Pos() && o.Pos() <= lit.Body.End() {
 					o = nil // a local of the consumer does not outlive it
 				}
@@ -559,12 +607,32 @@ func checkIterateStopAndReport(r *Reporter, p *Prog, pkg string, fd *ast.FuncDec
 				_ = w
 			}
 			if _, found := lf.reach(start, &searchOpts{AvoidNode: func(n ast.Node) bool {
-				rs, ok := n.(*ast.ReturnStmt)
-				if !ok || len(rs.Results) != 1 {
-					return false
+				switch x := n.(type) {
+				case *ast.ReturnStmt:
+					if len(x.Results) != 1 {
+						return false
+					}
+					id, ok := ast.Unparen(x.Results[0]).(*ast.Ident)
+					return ok && id.Name == "false"
+				case *ast.Ident:
+					// the result `false` of a spliced helper whose call is itself returned by the
+					// consumer (at every level): the consumer returns false on this path
+					if x.Name != "false" {
+						return false
+					}
+					npt, okp := lf.PointOf(x)
+					if !okp || lf.regionOf[npt.B] == nil {
+						return false
+					}
+					for reg := lf.regionOf[npt.B]; reg != nil; reg = reg.parent {
+						rs, isRet := lf.nodeAt(reg.callPt).(*ast.ReturnStmt)
+						if !isRet || len(rs.Results) != 1 || ast.Unparen(rs.Results[0]) != ast.Expr(reg.call) {
+							return false
+						}
+					}
+					return true
 				}
-				id, ok := ast.Unparen(rs.Results[0]).(*ast.Ident)
-				return ok && id.Name == "false"
+				return false
 			}}, func(pt Point, atExit bool) bool { return atExit }); found {
 				bad = fmt.Sprintf("%s: a failing decode does not stop the iteration with `return false`", p.posStr(c.Pos()))
 			}
@@ -638,10 +706,27 @@ func checkComputeReadsStore(r *Reporter, p *Prog) {
 			}
 		}
 	}
-	isCompute := func(n ast.Node) bool {
-		cl, ok := n.(*ast.CallExpr)
-		return ok && params[objOfIdent(info, cl.Fun)]
+	// calls of the compute function: the parameter itself, or a helper's parameter it was passed to
+	computeCalls := map[ast.Node]bool{}
+	for _, b := range f.G.Blocks {
+		if !b.Live {
+			continue
+		}
+		for i, nd := range b.Nodes {
+			pt := Point{b, i}
+			inspectNoLit(nd, func(m ast.Node) bool {
+				if cl, ok := m.(*ast.CallExpr); ok {
+					for po := range params {
+						if f.IsVar(cl.Fun, pt, po) {
+							computeCalls[cl] = true
+						}
+					}
+				}
+				return true
+			})
+		}
 	}
+	isCompute := func(n ast.Node) bool { return computeCalls[n] }
 	isGet := func(n ast.Node) bool {
 		cl, ok := n.(*ast.CallExpr)
 		return ok && strings.HasSuffix(exprKey(cl.Fun), ".kv.Get")
